@@ -510,6 +510,18 @@ struct driver
       for (unsigned pa = 0; pa < num_prov; ++pa)
         for (unsigned pb = 0; pb < num_prov; ++pb) rel_record(pa, v[pa], pb, v[pb]);
     }
+    // beyond 9 enumerators: every sampled subset against each of its one-enumerator neighbours
+    if (N > 9)
+    {
+      unsigned long c = 0;
+      for (mask_t m : masks)
+        for (unsigned k = 0; k < N; ++k, ++c)
+        {
+          unsigned const pa = static_cast<unsigned>(c % num_prov);
+          unsigned const pb = static_cast<unsigned>((c / num_prov) % num_prov);
+          rel_record(pa, make(pa, m), pb, make(pb, m ^ (mask_t{1} << k)));
+        }
+    }
     // pairs of subsets
     if (pairs_mode == "all")
     {
@@ -535,12 +547,14 @@ struct driver
         unsigned const pb = static_cast<unsigned>(g.below(num_prov));
         mask_t ma = static_cast<mask_t>(g.next()) & full;
         mask_t mb = static_cast<mask_t>(g.next()) & full;
-        switch (g.below(8))
+        switch (g.below(10))
         {
         case 0: mb = ma; break;
         case 1: mb = ma & mb; break; // a subset
         case 2: mb = ma | mb; break; // a superset
         case 3: mb = ~ma & full; break;
+        case 4: mb = ma ^ (mask_t{1} << g.below(N)); break; // differs in one enumerator
+        case 5: mb = ma ^ (mask_t{1} << (N - 1)); break;      // differs in the last enumerator
         default: break;
         }
         pair_record(pa, make(pa, ma), pb, make(pb, mb));
